@@ -205,6 +205,25 @@ def pool(contract, seed=0, limit=4000):
         elif meth == "__call__":
             yield from cap((fn, (p, v)) for p in props() for v in vals[::3])
         return
+    if key.startswith("spec.lemma_stubs:vals_"):
+        # lemma carriers: real elements, their real validator lists, real values (shows the hypotheses are satisfiable and
+        # evaluates the conclusion natively)
+        def triples():
+            for mk in element_makers():
+                try:
+                    from spec import pyspec
+                    e = mk()
+                    vs = pyspec.validators_of(e)
+                except Exception:
+                    continue
+                for x in vals[::3]:
+                    yield e, vs, x
+        if qual == "vals_bwd":
+            want = "InstanceOf" if (contract.inst or "").startswith("types") else contract.inst
+            yield from cap((fn, (e, vs, x, m)) for e, vs, x in triples() for m in vs if type(m).__name__ == want)
+        else:
+            yield from cap((fn, (e, vs, x)) for e, vs, x in triples())
+        return
     if key.endswith("orderer:get_children") or key.endswith("orderer:_get_path"):
         def elems():
             from statham.schema.elements import Array, Element, Object, String, AnyOf, Not
